@@ -288,7 +288,9 @@ def run(ctx):
             stats["programs_by_class"][cls] = stats["programs_by_class"].get(cls, 0) + 1
             stats["baseline_classes"][base["class"]] = stats["baseline_classes"].get(base["class"], 0) + 1
             distinct_progs.add(progs[idx]["source"])
-            if base["class"] == "budget":
+            if base["class"] in ("budget", "runtime:OutOfMemory"):
+                # never collecting at all ran into the instruction budget / the heap limit: no reference behaviour
+                stats["programs_without_reference_run"] = stats.get("programs_without_reference_run", 0) + 1
                 continue
             for sched, r in rs.items():
                 stats["runs"] += 1
@@ -310,7 +312,8 @@ def run(ctx):
                     u = stats["runs_with_collections_by_class"]
                     u[cls] = u.get(cls, 0) + 1
                 same = (r["class"], r["output"], r["value"]) == (base["class"], base["output"], base["value"])
-                if same or r["class"] == "budget":
+                if same or r["class"] in ("budget", "runtime:OutOfMemory"):
+                    # (a schedule that collects rarely can hit the heap limit where a frequent one does not)
                     continue
                 stats["differing_runs"] += 1
                 sig = "gc-schedule-diff:" + r["class"]
